@@ -206,8 +206,22 @@ impl Stats {
             return;
         }
         self.violations_total += 1;
+        self.keep(v);
+    }
+    /// Keeps the smallest violating cases (by size of the concrete input), so that the reported
+    /// counterexamples are shortest ones whatever the enumeration and merge order.
+    fn keep(&mut self, v: Violation) {
+        let size = |v: &Violation| v.input.to_string().len();
         if self.violations.len() < MAX_VIOLATIONS_KEPT {
             self.violations.push(v);
+        } else if let Some((i, _)) = self
+            .violations
+            .iter()
+            .enumerate()
+            .max_by_key(|(_, w)| size(w))
+            .filter(|(_, w)| size(w) > size(&v))
+        {
+            self.violations[i] = v;
         }
     }
     pub fn merge(&mut self, o: Stats) {
@@ -225,10 +239,9 @@ impl Stats {
         }
         self.violations_total += o.violations_total;
         for v in o.violations {
-            if self.violations.len() < MAX_VIOLATIONS_KEPT {
-                self.violations.push(v);
-            }
+            self.keep(v);
         }
+        self.violations.sort_by_key(|v| v.input.to_string().len());
         for (k, v) in o.known_matched {
             *self.known_matched.entry(k).or_insert(0) += v;
         }
@@ -294,6 +307,15 @@ pub fn machinery_error(msg: &str) -> ! {
     std::process::exit(EXIT_MACHINERY)
 }
 
+/// `set` names a distinct-set, or `counter:<name>` when the enumeration yields every case exactly once
+/// (then the counter already counts distinct cases and no hash set is kept).
+pub fn nontrivial_count(s: &Stats, set: &str) -> u64 {
+    match set.strip_prefix("counter:") {
+        Some(c) => s.get(c),
+        None => s.distinct_len(set),
+    }
+}
+
 fn stats_to_json(s: &Stats, nontrivial_set: &str) -> J {
     let distinct: BTreeMap<String, u64> = s
         .distinct
@@ -304,7 +326,7 @@ fn stats_to_json(s: &Stats, nontrivial_set: &str) -> J {
         "evaluations": s.evaluations,
         "states": s.states,
         "transitions": s.transitions,
-        "distinct_nontrivial": s.distinct_len(nontrivial_set),
+        "distinct_nontrivial": nontrivial_count(s, nontrivial_set),
         "counters": s.counters,
         "distinct_sets": distinct,
         "violations_total": s.violations_total,
@@ -442,7 +464,7 @@ pub fn finish(cfg: &Cfg, mut rep: Report) -> i32 {
     let evaluations = rep.stats.evaluations + part_evaluations;
     let mut coverage = json!({
         "evaluations": evaluations,
-        "distinct_nontrivial": rep.stats.distinct_len(rep.nontrivial_set),
+        "distinct_nontrivial": nontrivial_count(&rep.stats, rep.nontrivial_set),
         "rule": rep.rule,
         "samples": samples,
         "exhaustive": rep.exhaustive && rep.stats.caps_hit.is_empty(),
@@ -485,7 +507,7 @@ pub fn finish(cfg: &Cfg, mut rep: Report) -> i32 {
         evaluations,
         rep.stats.states,
         rep.stats.transitions,
-        rep.stats.distinct_len(rep.nontrivial_set),
+        nontrivial_count(&rep.stats, rep.nontrivial_set),
         total_viol,
         nviol,
         wall
